@@ -202,8 +202,25 @@ class _Recorder:
         return out
 
 
+def cool_lookups(prep: Prepared):
+    """make the next pass discover the plural of every ResourceFunction prepared without one again: forget koreo's
+    plural map and the plural memoised on the (process-global) kr8s class of those functions"""
+    from koreo.cache import get_resource_from_cache
+    from koreo.constants import PLURAL_LOOKUP_NEEDED
+    from koreo.resource_function.reconcile import kind_lookup
+    from koreo.resource_function.structure import ResourceFunction
+
+    kind_lookup._reset()
+    for fid, f in prep.case["fns"].items():
+        if f.get("rf") and f["rf"].get("noplural"):
+            fn = get_resource_from_cache(resource_class=ResourceFunction, cache_key=f.get("name", fid))
+            if fn is not None and hasattr(fn, "crud_config"):
+                fn.crud_config.resource_api.plural = PLURAL_LOOKUP_NEEDED
+                fn.crud_config.resource_api.endpoint = PLURAL_LOOKUP_NEEDED
+
+
 def run_prepared(prep: Prepared, order=None, faults=None, objects=None, trigger=None, extra_latency=None,
-                 cluster_factory=None):
+                 cluster_factory=None, lookup_latency=None):
     """one reconcile pass; returns the observation dict (see module doc).  `order`: list of unit keys.
     `faults`: {api-call index: fault} as in cluster.Cluster.  Raises nothing koreo does not raise.
     `cluster_factory(objects=…, faults=…)` may supply a Cluster subclass (C09 records the calling task)."""
@@ -239,6 +256,8 @@ def run_prepared(prep: Prepared, order=None, faults=None, objects=None, trigger=
         return max(0.0, t - loop.time()) + extra
 
     cl.latency = latency
+    if lookup_latency:
+        cl.lookup_latency = lookup_latency
     trig = case["trig"] if trigger is None else trigger
 
     async def go():
@@ -312,6 +331,7 @@ def run_sub(prep: Prepared, name: str, trigger, objects=None):
             api=cl, workflow_key=name, owner=("ns", dict(ku.OWNER_REF)),
             trigger=celpy.json_to_cel(copy.deepcopy(trigger)), workflow=wf))
         out["overall"] = outcome_abs(res.result)
+        out["state"] = canon_unordered(canon_value(ku.plain(res.state)))
     except (KeyboardInterrupt, SystemExit):
         raise
     except BaseException as e:
